@@ -293,10 +293,11 @@ class _CommonFile:
         records = self._records
         if __debug__:
             pending = set(records)
+        last = None
         for action, content in self._source:
             if action == _SKIPPED:
                 # 'content' is whitespace/comments to write
-                yield content
+                line = content
             else:
                 assert action == _RECORD
                 # 'content' is record key
@@ -305,9 +306,15 @@ class _CommonFile:
                     # NOTE: doing it lazily like this so deleting & re-adding user
                     #       preserves their original location in the file.
                     continue
-                yield self._render_record(content, records[content])
+                line = self._render_record(content, records[content])
                 if __debug__:
                     pending.remove(content)
+            if last is not None and not last.endswith(b"\n"):
+                # e.g. the file ended in a comment w/o newline, and records were added since:
+                # without this the next line would become part of that comment.
+                yield b"\n"
+            yield line
+            last = line
         if __debug__:
             # sanity check that we actually wrote all the records
             # (otherwise _source & _records are somehow out of sync)
